@@ -9,7 +9,8 @@ def replay_info(msgs, enc, blocked):
     f = io.BytesIO()
     w = mciipm.IpmWriter(f, encoding=enc, blocked=blocked)
     for m in msgs:
-        w.write(ref.concrete_msg(m, config['bit_config']))
+        from . import packaged
+        w.write(ref.concrete_msg(m, packaged.bit_config()))
     w.close()
     data = f.getvalue()
     try:
